@@ -14,6 +14,14 @@ pub enum Ev {
     Flush,
 }
 
+#[derive(Clone, Copy, Debug, PartialEq)]
+pub enum Beh {
+    Full,
+    Short(usize),
+    Fail,
+    Interrupted,
+}
+
 pub struct DevState {
     pub data: Vec<u8>,
     pub pos: u64,
@@ -23,6 +31,11 @@ pub struct DevState {
     /// the injected fault is reported as `ErrorKind::Interrupted` (std's write_all/read_exact retry those)
     pub fault_interrupted: bool,
     pub chunk: Option<Rng>,
+    /// per-call behaviours chosen by the environment (engine devio): consumed one per device call;
+    /// an exhausted schedule means complete transfers
+    pub sched: Option<std::collections::VecDeque<Beh>>,
+    /// limit of the transfer of the call in progress (from `Beh::Short`)
+    pub short_now: Option<usize>,
     pub record: bool,
     pub log: Vec<Ev>,
 }
@@ -40,6 +53,8 @@ impl SimDev {
             faulted: false,
             fault_interrupted: false,
             chunk: None,
+            sched: None,
+            short_now: None,
             record: false,
             log: vec![],
         })))
@@ -73,9 +88,24 @@ impl SimDev {
     pub fn faulted(&self) -> bool {
         self.0.borrow().faulted
     }
+    pub fn set_sched(&self, sched: Vec<Beh>) {
+        self.0.borrow_mut().sched = Some(sched.into_iter().collect());
+    }
+    pub fn sched_left(&self) -> usize {
+        self.0.borrow().sched.as_ref().map(|q| q.len()).unwrap_or(0)
+    }
     fn tick(s: &mut DevState) -> Result<()> {
         let n = s.ops;
         s.ops += 1;
+        s.short_now = None;
+        if let Some(q) = s.sched.as_mut() {
+            match q.pop_front().unwrap_or(Beh::Full) {
+                Beh::Full => {}
+                Beh::Short(k) => s.short_now = Some(k),
+                Beh::Fail => return Err(Error::new(ErrorKind::Other, "scheduled device fault")),
+                Beh::Interrupted => return Err(Error::new(ErrorKind::Interrupted, "scheduled interruption")),
+            }
+        }
         if s.fault_at == Some(n) {
             s.faulted = true;
             let kind = if s.fault_interrupted { ErrorKind::Interrupted } else { ErrorKind::Other };
@@ -93,6 +123,9 @@ impl Read for SimDev {
         let pos = s.pos.min(len) as usize;
         let avail = s.data.len() - pos;
         let mut n = buf.len().min(avail);
+        if let Some(k) = s.short_now {
+            n = n.min(k);
+        }
         if n > 1 {
             if let Some(r) = s.chunk.as_mut() {
                 n = 1 + r.below(n as u64) as usize;
@@ -113,6 +146,9 @@ impl Write for SimDev {
         let mut s = self.0.borrow_mut();
         Self::tick(&mut s)?;
         let mut n = buf.len();
+        if let Some(k) = s.short_now {
+            n = n.min(k);
+        }
         if n > 1 {
             if let Some(r) = s.chunk.as_mut() {
                 n = 1 + r.below(n as u64) as usize;
